@@ -70,7 +70,10 @@ ERR_KINDS = ["500", "conflict", "notfound", "exists", "timeout_lost", "timeout_a
 FAULTS = [("fault", k) for k in ERR_KINDS] + [("kill", False), ("kill", True)]
 FKIND = {"500": "F500", "conflict": "FConflict", "notfound": "FNotFound", "exists": "FExists",
          "timeout_lost": "FTimeoutLost", "timeout_applied": "FTimeoutApplied"}
-ADV = {"absent": None, "present": {"meta": 9, "spec": 1, "status": 2, "rv": 4}, "same": {"meta": 7, "spec": 3, "status": 5, "rv": 12}}
+ADV = {"absent": None, "present": {"meta": 9, "spec": 1, "status": 2, "rv": 4}, "same": {"meta": 7, "spec": 3, "status": 5, "rv": 12},
+       # left by an interrupted run, after which the built-in set lost a node selector, a toleration and a template annotation:
+       # the spec to write differs from the stored one by omissions only
+       "super": {"meta": 7, "spec": 3, "status": 5, "rv": 12, "super": True}}
 
 
 def population(kinds):
@@ -509,6 +512,7 @@ def check(ctx, depth, binary=BINARY):
     for selname in SELECTORS:
         worlds = [world(selname, p, adv) for p in pops + extra for adv in advs]
         worlds += [world(selname, p, "same") for p in (pops[1:4] if quick else pops[1:12])]
+        worlds += [world(selname, p, "super") for p in (pops[1:3] if quick else pops[1:8])]
         worlds += [world(selname, p, adv, builtin=False) for p in [(), ("M",), ("M", "K")] for adv in advs]   # built-in already gone
         run_family(ctx, "faults/" + selname, worlds, depth, binary, single_fault_plan(1.0 / 3 if quick else 1.0))
     # retries: two and three faulty attempts, then a clean one
